@@ -148,6 +148,8 @@ pub fn prop() -> HistProp {
     w.liq_weakest = 3;
     w.liquidate = 1;
     w.squeeze = 3;
+    // somebody takes the other side of the whole net position: an exactly balanced market with open positions
+    w.balance = 4;
     HistProp {
         id: "C04",
         level: "exploration",
